@@ -150,7 +150,34 @@ def c02(res):
                       "slice lengths 0..=35; a case = one nodes / point / slice observation")
 
 
-CHECKS = {"C01": c01, "C02": c02, "C04": c04, "C20": c20}
+def c10(res):
+    wd = workdir("C10")
+    q = res.tier == "quick"
+    res.models.append(model_check("Reuse", "Reuse_mc.cfg", wd, workers=4))
+    hists = os.path.join(wd, "hists.out")
+    res.gens.append(generate("Reuse", "ReuseGen_quick.cfg" if q else "ReuseGen_thorough.cfg", wd, hists))
+    # long histories: simulation of the same model
+    sim = os.path.join(wd, "hists_sim.out")
+    res.gens.append(generate("Reuse", "ReuseSim.cfg", wd, sim, workers=1,
+                             extra=["-simulate", "num=%d" % (300 if q else 3000), "-depth", "13", "-seed", str(res.seed)]))
+    with open(hists, "a") as f:
+        f.write(open(sim).read())
+    progs = gen_programs(res, wd)
+    trace = os.path.join(wd, "trace.ndjson")
+    if not run_recorder(res, "c10", [hists, progs, res.tier, trace], wd):
+        return res.finish("recorder crashed")
+    n, rej = validate("Trace_C10", trace, wd, timeout=3000)
+    res.validated = n - len(rej)
+    res.evaluations = n
+    res.samples = sample_lines(trace, maxlen=5000)
+    res.add_rejects(trace, rej, lambda r, f: "backend=%s fails=%s" % (r.get("backend"), "+".join(f)))
+    res.assumptions = ["fresh-object results are the reference (no numeric oracle needed)"]
+    return res.finish("every history of the Reuse.tla model up to the bound (exhaustive) plus simulated histories of length 12, each "
+                      "replayed on real reused evaluators / storage / workspaces for VM<255>, VM<3> and the JIT over function triples of "
+                      "different shapes; a case = one history", exhaustive=False)
+
+
+CHECKS = {"C01": c01, "C02": c02, "C04": c04, "C10": c10, "C20": c20}
 
 
 def replay(prop, path):
